@@ -81,7 +81,7 @@ func isNotSymbolCharacter(c byte) bool {
 func expect(r *bufio.Reader, c byte) bool {
 	ReadWhitespace(r)
 	res, err := r.ReadByte()
-	if res != c {
+	if err == nil && res != c {
 		_ = r.UnreadByte()
 	}
 
